@@ -411,6 +411,8 @@ class Interp:
     def ev_Subscript(self, n, st):
         v = self.ev(n.value, st)
         idx = self.ev(n.slice, st)
+        if hasattr(v, "model_subscript"):
+            return v.model_subscript(self, st, idx)
         if isinstance(v, (ClassRef, ModuleRef, PyBuiltin)):
             return v  # typing subscripts
         if isinstance(v, SV) and v.ty.kind == "u" and (v.ty.name, "__getitem__") in registry.METHODS:
@@ -467,6 +469,9 @@ class Interp:
                 return h(self, st, obj)
             if obj.cls == "code" and attr == "replace":
                 return BoundMethod(obj, "replace")
+            fb = getattr(registry, "RECORD_ATTR_FALLBACK", {}).get(obj.cls)
+            if fb is not None:
+                return fb(self, st, obj, attr)
             raise Unsupported(f"record {obj.cls} has no field {attr}")
         if isinstance(obj, EnumVal):
             if attr == "value":
@@ -476,6 +481,8 @@ class Interp:
             return getattr_str(obj.value, attr)
         if isinstance(obj, SV):
             return self.getattr_sv(obj, attr, st)
+        if hasattr(obj, "model_method"):
+            return BoundMethod(obj, attr)
         if isinstance(obj, ObjUnderConstruction):
             if attr in obj.fields:
                 return obj.fields[attr]
@@ -671,6 +678,15 @@ class Interp:
         if txt.startswith(DROPPED_CALL_PREFIXES):
             self.dropped.add(txt)
             return None
+        if (isinstance(n.func, ast.Attribute) and n.func.attr == "setdefault" and isinstance(n.func.value, ast.Name)
+                and isinstance(st.env.get(n.func.value.id), SV) and st.env[n.func.value.id].ty.kind == "dict"):
+            d = st.env[n.func.value.id]
+            key = lift(self.ev(n.args[0], st), d.ty.args[0])
+            val = lift(self.ev(n.args[1], st), d.ty.args[1])
+            had = core.dict_has(d, key)
+            old = core.dict_get(d, key)
+            st.env[n.func.value.id] = SV(d.ty, z3.If(had, d.t, core.dict_set(d, key, val).t))
+            return SV(val.ty, z3.If(had, old.t, val.t))
         f = self.ev(n.func, st)
         args, kwargs = [], {}
         for a in n.args:
@@ -844,6 +860,8 @@ class Interp:
 
     def call_method(self, bm: BoundMethod, args, kwargs, st, node):
         obj, name = bm.obj, bm.name
+        if hasattr(obj, "model_method"):
+            return obj.model_method(self, st, name, args, kwargs)
         if bm.impl is not None:
             return bm.impl(self, st, *args, **kwargs)
         if isinstance(obj, Record) and obj.cls == "code" and name == "replace":
@@ -866,6 +884,9 @@ class Interp:
                     key = lift(args[0], obj.ty.args[0])
                     dflt = args[1] if len(args) > 1 else kwargs.get("default")
                     got = core.dict_get(obj, key)
+                    if dflt is None:
+                        oty = core.TOpt(got.ty)
+                        return SV(oty, z3.If(core.dict_has(obj, key), oty.sort().some(got.t), oty.sort().none))
                     d = lift(dflt, got.ty)
                     return SV(got.ty, z3.If(core.dict_has(obj, key), got.t, d.t))
             if k == "set":
@@ -1443,6 +1464,13 @@ class Interp:
                 return None
             st.env[tgt.id] = new
             return [Outcome("fall", st)]
+        if (isinstance(tgt, ast.Subscript) and isinstance(tgt.value, ast.Subscript) and isinstance(tgt.value.value, ast.Name)
+                and hasattr(st.env.get(tgt.value.value.id), "model_mutate2")):
+            nm = tgt.value.value.id
+            k1, k2 = self.ev(tgt.value.slice, st), self.ev(tgt.slice, st)
+            args = [self.ev(a, st) for a in call.args]
+            st.env[nm] = st.env[nm].model_mutate2(self, st, k1, k2, meth, args)
+            return [Outcome("fall", st)]
         if isinstance(tgt, ast.Subscript) and isinstance(tgt.value, ast.Name) and tgt.value.id in st.env:
             d = st.env[tgt.value.id]
             key = self.ev(tgt.slice, st)
@@ -1555,6 +1583,12 @@ class Interp:
         if s.value is None:
             return [Outcome("fall", st)]
         v = self.ev(s.value, st)
+        if isinstance(v, PendingTyped) or (isinstance(v, dict) and not v and isinstance(s.target, ast.Name)
+                                           and self.contract is not None and s.target.id in self.contract.locals):
+            decl = (self.contract.locals if self.contract is not None else {}).get(s.target.id if isinstance(s.target, ast.Name) else None)
+            if decl is None:
+                raise Unsupported(f"'{ast.unparse(s.target)}' needs a type in the sidecar 'locals'")
+            v = v.make(decl) if isinstance(v, PendingTyped) else MODEL_TYPES[decl.split("[")[0]](decl)
         v = self.annotate(v, s.annotation)
         self.assign(s.target, v, st)
         return [Outcome("fall", st)]
@@ -1579,6 +1613,13 @@ class Interp:
             st.env[target.id] = v
         elif isinstance(target, (ast.Tuple, ast.List)):
             self.bind_target(target, v, st)
+        elif (isinstance(target, ast.Subscript) and isinstance(target.value, ast.Subscript) and isinstance(target.value.value, ast.Name)
+              and hasattr(st.env.get(target.value.value.id), "model_set2")):
+            nm = target.value.value.id
+            st.env[nm] = st.env[nm].model_set2(self, st, self.ev(target.value.slice, st), self.ev(target.slice, st), v)
+        elif isinstance(target, ast.Subscript) and isinstance(target.value, ast.Name) and hasattr(st.env.get(target.value.id), "model_set1"):
+            nm = target.value.id
+            st.env[nm] = st.env[nm].model_set1(self, st, self.ev(target.slice, st), v)
         elif isinstance(target, ast.Subscript) and isinstance(target.value, ast.Name):
             nm = target.value.id
             cur = st.env.get(nm)
@@ -1708,12 +1749,18 @@ class Interp:
                 elif isinstance(sub, ast.Expr) and isinstance(sub.value, ast.Call) and isinstance(sub.value.func, ast.Attribute):
                     if sub.value.func.attr in ("append", "add", "extend", "update"):
                         t = sub.value.func.value
+                        while isinstance(t, ast.Subscript):
+                            t = t.value
                         if isinstance(t, ast.Name):
                             names.add(t.id)
-                        elif isinstance(t, ast.Subscript) and isinstance(t.value, ast.Name):
-                            names.add(t.value.id)
-                elif isinstance(sub, ast.Subscript) and isinstance(sub.ctx, ast.Store) and isinstance(sub.value, ast.Name):
-                    names.add(sub.value.id)
+                elif isinstance(sub, ast.Subscript) and isinstance(sub.ctx, ast.Store):
+                    t = sub.value
+                    while isinstance(t, ast.Subscript):
+                        t = t.value
+                    if isinstance(t, ast.Name):
+                        names.add(t.id)
+                elif isinstance(sub, ast.Call) and isinstance(sub.func, ast.Attribute) and sub.func.attr == "setdefault" and isinstance(sub.func.value, ast.Name):
+                    names.add(sub.func.value.id)
         return names
 
     def st_For(self, s, st):
@@ -1770,8 +1817,8 @@ class Interp:
             return core.fresh(lift(v).ty, hint)
         if isinstance(v, (set, frozenset)) and v:
             return core.fresh(lift(frozenset(v)).ty, hint)
-        if isinstance(v, DefaultDict):
-            return v.havoc(hint)
+        if isinstance(v, DefaultDict) or hasattr(v, "model_havoc"):
+            return v.havoc(hint) if isinstance(v, DefaultDict) else v.model_havoc(hint)
         if isinstance(v, Record) and v.cls in core.RECORDS:
             return make_record(v.cls, lambda path, fty: core.fresh(fty, f"{hint}.{path}"))
         return None
@@ -1805,8 +1852,13 @@ class Interp:
                 s2.env["ORDER"] = it.order
                 s2.env["POS"] = lambda ctx, st_, x: SV(TInt, it.pos(lift(x, it.s.ty.args[0]).t))
             out = []
+            base = len(s2.pc)
             for nm, e in invs.items():
                 out.append((nm, self.ev_contract_expr(e, s2)))
+            # facts assumed while evaluating the invariants (postconditions of the contracts they mention) stay available
+            for f in s2.pc[base:]:
+                state.pc.append(f)
+                state.assumed.add(f.get_id())
             return out
 
         # lift initial values of modified variables to their declared/inferred types
@@ -1847,6 +1899,7 @@ class Interp:
             self.assume(body_st, g)
         self.bind_target(s.target, it.at(k), body_st)
         body_st.env["k"] = k  # the ghost iteration index stays visible (e.g. on a `break` path)
+        body_st.env[f"k{ordinal}"] = k  # ... and under its loop ordinal for the invariants of nested loops
         self.covers.append((f"{self.qualname}/loop{ordinal}.body.reachable", list(body_st.pc)))
         outs = []
         for o in self.exec_block(s.body, body_st):
@@ -2061,6 +2114,7 @@ class StdlibCall:
         return self.fn(*args, **kwargs)
 
 
+MODEL_TYPES: dict = {}  # name of a sidecar-declared model type -> constructor(decl string)
 CONSTANTS: dict = {}
 RECORD_MUTATORS: dict = {}  # (record class, method) -> callable(ctx, st, record, args) -> new record
 EXTERNAL_ROOTS = {"sympy", "typing", "structlog", "lark", "pint", "attr", "graphlib", "collections", "functools",
